@@ -35,6 +35,7 @@ PROPS.update({
         "text": "Kernel-checked theorems over every label list: at_most_once, handled_were_accepted, rejected_never (state form and on the monitor predicate evaluated on real traces). The model's mailbox is tied to the code by per-run correspondence; the acceptance probe makes 'accepted' observable on the real side; monitors C01.atMostOnce / rejectedNever / gracefulComplete run on every real trace.",
         "note": PROOF_NOTE + " graceful_complete is checked by the monitor on real traces and by correspondence; its theorem is not yet in Props/C01.lean.",
         "technique": "Lean 4 invariant proofs (FIFO log, id freshness, rejection) by induction over label sequences + correspondence + Lean monitors on real traces",
+        "extra": ["stress"],
         "monitors": ["C01"],
         "corr": corr(["burst", "mixed", "handles", "timeouts"]),
         "extract_items": ["ask_wait_watches_closed"],
@@ -45,6 +46,7 @@ PROPS.update({
         "text": "Kernel-checked: handler starts are exactly the envelopes of the taken prefix of the acceptance log, in order; the mailbox is the remaining suffix; an item is accepted at most once; the log only grows at its end - for every schedule, capacity and operation mix, the stop marker being an ordinary item of the same queue. Correspondence + monitors C02.fifo / idxInOrder / stopPrefix on real traces (acceptance order observed by the probe).",
         "note": PROOF_NOTE,
         "technique": "Lean 4 invariant proof (mailbox = suffix of acceptance log) + correspondence + Lean monitors on real traces",
+        "extra": ["stress"],
         "monitors": ["C02"],
         "corr": corr(["burst", "mixed", "timeouts"]),
         "extract_items": [],
@@ -56,7 +58,7 @@ PROPS.update({
         "note": PROOF_NOTE + " Wall-clock behaviour of the blocking variants is outside the model (see C17).",
         "technique": "Lean 4 invariant proof over label sequences + translated is_retryable + correspondence with virtual-clock return instants",
         "monitors": ["C10"],
-        "extra": ["tables"],
+        "extra": ["tables", "stress"],
         "corr": corr(["timeouts", "burst", "mixed"]),
         "extract_items": ["ErrorKind"],
         "assumptions": COMMON_ASSUME + ["tokio::time::timeout polls the inner future first and fires no earlier than its deadline"],
@@ -103,6 +105,7 @@ PROPS.update({
         "text": "Kernel-checked for every run: reply_integrity (on the monitor predicate), ended_clean, later_fail, and completes - once the actor has ended every operation still in flight (queued for a permit, holding a permit, awaiting a reply, even with its envelope pushed after the receivers were dropped) completes within two of its own steps. The last case relies on the repaired reply wait, whose presence is extracted from src/actor_ref.rs on every run (Extracted.ask_wait_watches_closed). Correspondence + monitors C03.replyIntegrity / nothingPendingAfterEnd / laterFail on real traces.",
         "note": PROOF_NOTE + " ask_join is covered by the existing suite only. The stranding interleaving exists only with true parallelism; on the real code it is exercised by the multi-thread hammer (thorough).",
         "technique": "Lean 4 invariant proofs + progress theorem over label sequences + extraction of the reply-wait protocol + correspondence",
+        "extra": ["stress"],
         "monitors": ["C03"],
         "corr": corr(["burst", "mixed", "handles", "timeouts"]),
         "extract_items": ["ask_wait_watches_closed"],
@@ -113,6 +116,7 @@ PROPS.update({
         "text": "Kernel-checked: kill_total (in every state kill() is enabled, returns Ok in its own label, queues nothing, records nothing), kill_bound (on the monitor predicate: after kill() on an actor that had not begun to stop at most one further handler starts, for every schedule and queue content; the bound is shown tight), kill_not_lost, kill_prompt. Monitors C06.killTotal / killBound / killOutcome / leftoversFail on every real trace; burst family lands kills at every phase with full mailboxes.",
         "note": PROOF_NOTE,
         "technique": "Lean 4 fold-invariant proof (budget argument over the split select) + correspondence + Lean monitors on real traces",
+        "extra": ["stress"],
         "monitors": ["C06"],
         "corr": corr(["burst", "mixed", "idle"]),
         "extract_items": [],
@@ -126,8 +130,8 @@ PROPS.update({
         "text": "Kernel-checked step theorems (for every state, hence every reachable one): never_spontaneous (a live actor begins to stop only by consuming a kill, observing zero strong references, dequeuing the stop marker, or an on_run error), ends_only_after_stop_or_crash, weak_dont_count, upgrade_iff, closed_means_unreferenced (the reference count includes handles, queued envelopes and markers, blocked senders, the running handler, operations in flight), and progress lemmas ends_when_unreferenced / ends_when_stopped. On real traces: C07.neverSpontaneous on every trace and endsWhenDue on settled (fully drained) traces; the handles family walks clone/drop/downgrade/upgrade histories.",
         "note": PROOF_NOTE + " Liveness (the JoinHandle eventually resolves) is stated as progress lemmas plus the settled-trace monitor, not as a temporal theorem.",
         "technique": "Lean 4 case-analysis theorems on the step function + correspondence on handle histories + Lean monitors on settled real traces",
-        "monitors": ["C07"],
-        "corr": corr(["handles", "mixed", "burst"]),
+        "monitors": ["C07", "C01", "C02"],
+        "corr": corr(["handles", "mixed", "burst", "timeouts"]),
         "extract_items": ["lifecycle", "send_paths", "handle_algebra"],
         "assumptions": COMMON_ASSUME + ["the two sender counts of an ActorRef are treated as one (both closure arms are on_stop(false); break - shape lemma lifecycle_arms)"],
     },
@@ -146,6 +150,7 @@ PROPS.update({
         "text": "Kernel-checked: ids_unique for any number of spawns (the allocator constants are extracted from src/lib.rs), alive_true / alive_false (is_alive on a strong handle is true until the actor has ended and false afterwards, for every run), sends_fail_after_end, upgrade_iff. Identity copying and the two-channel liveness predicates are extracted shape lemmas (handle_algebra_shape, forwarders_verbatim). Probes alive/upgrade are script operations compared step by step with the real crate; monitor C11 on real traces.",
         "note": PROOF_NOTE + " Atomicity of fetch_add is assumed (std); identities of different actors are compared in the multi-actor scripts of C12/C14.",
         "technique": "Lean 4 theorems on the step function and the allocator + extracted shape lemmas + correspondence with liveness probes",
+        "extra": ["stress"],
         "monitors": ["C11", "C03"],
         "corr": corr(["handles", "mixed"]),
         "extract_items": ["handle_algebra", "spawn_with_mailbox_capacity", "forwarders"],
